@@ -1,6 +1,9 @@
 package core_domain
 
-import "strings"
+import (
+	"strconv"
+	"strings"
+)
 
 type CodeDataStruct struct {
 	NodeName        string
@@ -52,14 +55,34 @@ func (d *CodeDataStruct) IsNotEmpty() bool {
 	return len(d.Functions) > 0 || len(d.FunctionCalls) > 0
 }
 
+// BuildCallMethodMap lists every method under its full name and under its full name + "#" + number of parameters
+// (see CallMethodKey). Overloads share a name and the methods of a class come in no fixed order: of several candidates
+// for one key the one declared first in the source is kept, so that the map is the same on every run.
 func BuildCallMethodMap(deps []CodeDataStruct) map[string]CodeFunction {
 	var callMethodMap = make(map[string]CodeFunction)
 	for _, clz := range deps {
 		for _, method := range clz.Functions {
-			callMethodMap[method.BuildFullMethodName(clz)] = method
+			name := method.BuildFullMethodName(clz)
+			for _, key := range []string{name, CallMethodKey(name, len(method.Parameters))} {
+				if prev, ok := callMethodMap[key]; !ok || declaredBefore(method, prev) {
+					callMethodMap[key] = method
+				}
+			}
 		}
 	}
 	return callMethodMap
+}
+
+// CallMethodKey is the key of the overload with the given number of parameters
+func CallMethodKey(fullMethodName string, parameterCount int) string {
+	return fullMethodName + "#" + strconv.Itoa(parameterCount)
+}
+
+func declaredBefore(a CodeFunction, b CodeFunction) bool {
+	if a.Position.StartLine != b.Position.StartLine {
+		return a.Position.StartLine < b.Position.StartLine
+	}
+	return a.Position.StartLinePosition < b.Position.StartLinePosition
 }
 
 func (d *CodeDataStruct) GetClassFullName() string {
